@@ -608,6 +608,10 @@ func (rm *relayManager) handleCreateRelayRequest(v cert.Version, h *HostInfo, f 
 				logMsg.Error("relayManager Failed to allocate a local index for relay", "error", err)
 				return
 			}
+		} else {
+			// The entry may be the onward leg of a relay the target asked for earlier and that this peer has not answered,
+			// it has no index of this peer yet. Without it the relay would be completed, and used, with index 0.
+			h.relayState.LearnRelayForByIpRemoteIndex(target, m.InitiatorRelayIndex)
 		}
 	}
 }
